@@ -93,7 +93,7 @@ func hoverKind(content string) string {
 var c08Fx map[string]bool
 
 // c08Fixes probes the real code with canary inputs for the delivered repairs
-// (fix-link-range: upstream 04b7a3e, fix-fold-ranges: upstream 4d2f7df, fix-utf16-columns).
+// (fix-link-range: upstream 04b7a3e, fix-fold-ranges: upstream 4d2f7df).
 func c08Fixes() map[string]bool {
 	if c08Fx != nil {
 		return c08Fx
@@ -108,9 +108,6 @@ func c08Fixes() map[string]bool {
 	fx["link"] = len(links) == 1 && links[0].Range.Start.Character == 8
 	folds, _ := srv.FoldingRanges(ctx, &protocol.FoldingRangeParams{TextDocumentPositionParams: protocol.TextDocumentPositionParams{TextDocument: td}})
 	fx["fold"] = len(folds) >= 1 && folds[0].StartLine == 1 && folds[0].EndLine == 3
-	// fix-utf16-columns.diff: columns count UTF-16 units ("; 😀" ends at column 5, not 4)
-	toks := parser.NewLexer("; \U0001F600")
-	fx["utf16"] = toks.Next().End.Column == 5
 	c08Fx = fx
 	return fx
 }
@@ -373,6 +370,7 @@ type g08 struct {
 	accts  []string
 	payees []string
 	yearOK bool
+	nb     bool // prefer texts with characters outside the BMP (every second pick)
 }
 
 var (
@@ -392,7 +390,25 @@ var (
 		"год/файл.journal", "em😀ji.journal", "with space.journal"}
 )
 
-func (g *g08) pick(xs []string) string { return xs[g.r.IntN(len(xs))] }
+func (g *g08) pick(xs []string) string {
+	x := xs[g.r.IntN(len(xs))]
+	if g.nb && g.r.IntN(2) == 0 {
+		// a non-BMP alternative from the same pool, if it has one
+		var nb []string
+		for _, s := range xs {
+			for _, c := range s {
+				if c >= 0x10000 {
+					nb = append(nb, s)
+					break
+				}
+			}
+		}
+		if len(nb) > 0 {
+			return nb[g.r.IntN(len(nb))]
+		}
+	}
+	return x
+}
 func (g *g08) blanks(lo, hi int) string {
 	return strings.Repeat(" ", lo+g.r.IntN(hi-lo+1))
 }
@@ -615,7 +631,14 @@ func (g *g08) directive() []string {
 }
 
 func genJournalC08(r *rand.Rand, maxEntries int) string {
-	g := &g08{r: r}
+	return genJournalC08nb(r, maxEntries, false)
+}
+
+// genJournalC08nb: with nb, accounts, descriptions, codes, commodities, comments, tag values
+// and include paths hold characters outside the BMP far more often, so that every kind of
+// range is regularly preceded by one on its line.
+func genJournalC08nb(r *rand.Rand, maxEntries int, nb bool) string {
+	g := &g08{r: r, nb: nb}
 	var lines []string
 	n := 1 + r.IntN(maxEntries)
 	for i := 0; i < n; i++ {
@@ -668,6 +691,12 @@ func genC08(c *Ctx) {
 		text := genJournalC08(r, c.N(4, 8))
 		c.Emit("c08.doc", c08Doc(c, text, true))
 	}
+	// journals dense in characters outside the BMP (the server converts rune columns to UTF-16
+	// units at the protocol boundary)
+	for i := 0; i < c.N(60, 600); i++ {
+		c.Count("docs.nonbmp-dense")
+		c.Emit("c08.doc", c08Doc(c, genJournalC08nb(r, c.N(4, 8), true), true))
+	}
 	// CRLF journals (G allows them; the parser does not cope: C03) and free text: totality and
 	// correspondence only where the driver says so
 	for i := 0; i < c.N(6, 150); i++ {
@@ -690,4 +719,9 @@ var c08Fixed = []string{
 	"include other.journal\n",
 	"2024-01-15 (c1)  Shop | note ; t:v\n    a:b ;c\n    (c:d )  1\n",
 	"2024-01-15 x ; café k:v\n    a:b    1    USD\n",
+	// characters outside the BMP in front of every kind of range (fix-utf16-positions)
+	"account a😀b:c\ncommodity \"😀\"\ncommodity 1.00 𝄞X\nP 2024-01-01 \"😀\" 2 €\ninclude em😀ji.journal\n\n" +
+		"2024-01-15 * 😀 party 𝄞 ; k:  v, e:, date:2024-01-02\n    a😀b:c  1 \"😀\" @ 2 USD = 3 \"😀\" ; t:   x\n    (x𝄞:y)  -1 USD\n    a😀b:c\n",
+	"2024-01-15 😀\n    a😀b:c  1 USD\n    q\U00010000z:w  bad amount 😀 here\n    a😀b:c  \n",
+	"2024-01-15 x ; k:v,   long-tag_1:    spaced value  , e:\n    a:b  1 ; k:   v\n    c:d\n",
 }
